@@ -1,11 +1,13 @@
 import ModbusModel.Model.Server
 import ModbusModel.Lemmas.Encode
 import ModbusModel.Lemmas.Tcp
+import ModbusModel.Props.C01
+import ModbusModel.Lemmas.Serve
 /-
   C07 – The server answers every request once, in order, under the request's own header.
 -/
 namespace Modbus.Props.C07
-open Modbus
+open Modbus Modbus.Props.C01
 
 /-- a service error becomes an exception reply for the request's function code with the
     service's exception code; a declined request gets no reply at all -/
@@ -87,6 +89,96 @@ theorem answered_step (k : Kind) (svc : Service) (fuel idx : Nat) (f : ServerFra
   simp only [h8, if_false, List.nil_append]
   rw [show (1 : Nat) = 0 + 1 from rfl, hfl 0 _ rfl rfl]
   simp [effectsToEvents]
+
+/-- **every request once, in order, each answered before the next is looked at** (TCP): -/
+theorem serves_every_request_tcp (svc : Service) (reqs : List (TcpHeader × Request)) (t : Transport)
+    (hs : ∀ p ∈ reqs, requestPduSizeRaw p.2 ≤ 253) (hc : ∀ p ∈ reqs, p.2.canonical)
+    (hw : t.writes = []) (hf : t.flushes = []) (hfeed : ∀ e ∈ t.reads, e.isFeed = true)
+    (hdata : dataOf t.reads = (reqs.map fun p => tcpFrame p.1 (encodeRequestPdu p.2)).flatten)
+    (henc : Encodable .tcp svc 0 (reqs.map fun p => ({ tid := p.1.transactionId, unit := p.1.unitId }, p.2))) :
+    (process .tcp svc t).1 = .blocked
+    ∧ (process .tcp svc t).2.1
+        = expectedTrace .tcp svc 0 (reqs.map fun p => ({ tid := p.1.transactionId, unit := p.1.unitId }, p.2)) := by
+  have hitems : (reqs.map fun p => tcpFrame p.1 (encodeRequestPdu p.2)).map tcpServerFraming.item
+      = reqs.map fun p => ({ tid := p.1.transactionId, unit := p.1.unitId }, p.2) := by
+    rw [List.map_map]
+    apply List.map_congr_left
+    intro p hp
+    have h3 := server_decodes_request_tcp p.1 p.2 [] (hs p hp) (hc p hp)
+    simp only [List.append_nil] at h3
+    simp [tcpServerFraming, Framing.ofStrict, h3]
+  have hv : ∀ x ∈ (reqs.map fun p => tcpFrame p.1 (encodeRequestPdu p.2)), tcpServerFraming.Valid x := by
+      intro x hx
+      obtain ⟨p, hp, rfl⟩ := List.mem_map.mp hx
+      exact ⟨p.1, p.2, hs p hp, hc p hp, rfl⟩
+  have hne : ∀ x ∈ (reqs.map fun p => tcpFrame p.1 (encodeRequestPdu p.2)), x ≠ [] := by
+      intro x hx
+      obtain ⟨p, _, rfl⟩ := List.mem_map.mp hx
+      simp [tcpFrame, be16]
+  have henc' : Encodable .tcp svc 0 ((reqs.map fun p => tcpFrame p.1 (encodeRequestPdu p.2)).map tcpServerFraming.item) := by
+    rw [hitems]; exact henc
+  have H0 := process_serves .tcp tcpServerFraming svc (reqs.map fun p => tcpFrame p.1 (encodeRequestPdu p.2)) t
+  have H := H0 hv hne hw hf hfeed hdata henc'
+  rw [hitems] at H
+  exact H
+
+/-- the same over RTU (RTU-over-TCP and serial: one loop, one codec) -/
+theorem serves_every_request_rtu (svc : Service) (reqs : List (UInt8 × Request)) (t : Transport)
+    (hs : ∀ p ∈ reqs, requestPduSizeRaw p.2 ≤ 253) (ht : ∀ p ∈ reqs, ∀ fc d, p.2 ≠ .custom fc d)
+    (hw : t.writes = []) (hf : t.flushes = []) (hfeed : ∀ e ∈ t.reads, e.isFeed = true)
+    (hdata : dataOf t.reads = (reqs.map fun p => rtuFrame p.1 (encodeRequestPdu p.2)).flatten)
+    (henc : Encodable .rtu svc 0 (reqs.map fun p => ({ tid := 0, unit := p.1 }, p.2))) :
+    (process .rtu svc t).1 = .blocked
+    ∧ (process .rtu svc t).2.1 = expectedTrace .rtu svc 0 (reqs.map fun p => ({ tid := 0, unit := p.1 }, p.2)) := by
+  have hitems : (reqs.map fun p => rtuFrame p.1 (encodeRequestPdu p.2)).map rtuServerFraming.item
+      = reqs.map fun p => ({ tid := 0, unit := p.1 }, p.2) := by
+    rw [List.map_map]
+    apply List.map_congr_left
+    intro p hp
+    have h3 := server_decodes_request_rtu {} p.1 p.2 [] (hs p hp) (ht p hp)
+    simp only [List.append_nil] at h3
+    simp [rtuServerFraming, Framing.ofStrict, h3]
+  have hv : ∀ x ∈ (reqs.map fun p => rtuFrame p.1 (encodeRequestPdu p.2)), rtuServerFraming.Valid x := by
+      intro x hx
+      obtain ⟨p, hp, rfl⟩ := List.mem_map.mp hx
+      exact ⟨p.1, p.2, hs p hp, ht p hp, rfl⟩
+  have hne : ∀ x ∈ (reqs.map fun p => rtuFrame p.1 (encodeRequestPdu p.2)), x ≠ [] := by
+      intro x hx
+      obtain ⟨p, _, rfl⟩ := List.mem_map.mp hx
+      simp [rtuFrame]
+  have henc' : Encodable .rtu svc 0 ((reqs.map fun p => rtuFrame p.1 (encodeRequestPdu p.2)).map rtuServerFraming.item) := by
+    rw [hitems]; exact henc
+  have H0 := process_serves .rtu rtuServerFraming svc (reqs.map fun p => rtuFrame p.1 (encodeRequestPdu p.2)) t
+  have H := H0 hv hne hw hf hfeed hdata henc'
+  rw [hitems] at H
+  exact H
+
+
+/-- what the expected trace shows for one request: the reply written for it is the encoding of
+    the service's answer under that request's own header – or nothing if the service declines -/
+theorem reply_events_spec (k : Kind) (svc : Service) (idx : Nat) (h : Hdr) (q : Request) :
+    replyEvents k svc idx h q =
+      match responseFor q.functionCode (svc idx h.unit q) with
+      | none => []
+      | some rsp => match serverEncode k h rsp with
+        | .ok frame => [.write frame]
+        | _ => [] := rfl
+
+/-- the expected trace lists the calls in arrival order, each exactly once -/
+theorem expectedTrace_calls (k : Kind) (svc : Service) : ∀ (idx : Nat) (reqs : List (Hdr × Request)),
+    (expectedTrace k svc idx reqs).filterMap (fun | .call u q => some (u, q) | _ => none)
+      = reqs.map fun p => (p.1.unit, p.2) := by
+  intro idx reqs
+  induction reqs generalizing idx with
+  | nil => rfl
+  | cons p ps ih =>
+    obtain ⟨h, q⟩ := p
+    have hr : (replyEvents k svc idx h q).filterMap (fun | .call u q => some (u, q) | _ => none) = [] := by
+      unfold replyEvents
+      split
+      · rfl
+      · split <;> rfl
+    simp [expectedTrace, List.filterMap_append, hr, ih]
 
 -- non-vacuity: two pipelined requests in one read, an exception and a reply
 example :
